@@ -137,7 +137,13 @@ def run(ctx):
                        'DataVolume / ISO currencies covered by C20 / C08 on the Scale representation']
     calcmodel.laws(ctx, 'round')
     calccheck.run_programs(ctx, programs(ctx), 'quantized', sigfn=sig)
+    # every DataVolume unit x producing operations x 8 modes on the predefined catalogue (BCalc.tla)
+    from checks import bcalccheck
+    bcalccheck.run_cases(ctx, bcalccheck.datavolume_cases(ctx), 'datavolume')
 
 
 def replay(ctx, rp):
+    if str(rp['replay'].get('kind')).startswith('bcalc'):
+        from checks import bcalccheck
+        return bcalccheck.replay(ctx, rp)
     calccheck.replay(ctx, rp, sig)
